@@ -62,13 +62,13 @@ def run(ck):
     nscn = 0
     outcomes = collections.Counter()
 
-    def replay(graph, label, limit):
+    def replay(graph, label, limit, dask_share=1.0):
         nonlocal nscn
         groups = sorted(graph.values(), key=lambda g: repr(g["s"]))
         if limit and len(groups) > limit:
             groups = rng.sample(groups, limit)
         for g in groups:
-            modes = ["dask"] if len(g["s"]["comp"]) > 1 else [None, "dask"]
+            modes = ["dask"] if len(g["s"]["comp"]) > 1 else ([None, "dask"] if rng.random() < dask_share else [None])
             for mode in modes:
                 for init, verdict, detail in km.walk(em, g, dask_mode=mode):
                     nscn += 1
@@ -85,7 +85,7 @@ def run(ck):
                                   "input": mode or "numpy", "detail": detail})
 
     replay(g_num, "1d", 40 if quick else 0)
-    replay(g_stop, "stop", 60 if quick else 0)
+    replay(g_stop, "stop", 0, dask_share=0.15 if quick else 1.0)
     replay(g_2d, "2d", 20 if quick else 0)
     ck.extra["m2_scenarios"] = nscn
     ck.extra["m2_outcomes"] = dict(outcomes)
